@@ -85,6 +85,9 @@ def species_patterns(S):
         if len(ints) >= 2:
             pats.append(("S1_root_rest_unnamed", _merge(base, {v: ("S1" if v == ints[0] else "") for v in ints})))
             pats.append(("S0_leaf_S1_inner", _merge(alt, {v: ("S1" if v == ints[-1] else "") for v in ints})))
+        # species names that contain an underscore themselves (leaf names then have two: <spe_cies>_<id>)
+        und = {v: f"sp_{v}" for v in S.leaves}
+        pats.append(("underscore_species", _merge(und, {v: "" for v in ints})))
         # consecutive auto-label-like names on the leaves, every ancestor unnamed
         pats.append(("S_leaves_taken", _merge({v: f"S{i}" for i, v in enumerate(S.leaves)}, {v: "" for v in ints})))
         pats.append(("S_leaves_taken_gap", _merge({v: f"S{2 * i}" for i, v in enumerate(S.leaves)}, {v: "" for v in ints})))
@@ -354,13 +357,15 @@ def cases_for(O, S, leafmap, full):
     if len(O.leaves) >= 5 or len(S.leaves) >= 5:
         # the large trees are there for the numbering order only: fewer patterns, three algorithms
         opats = [p_ for p_ in opats if p_[0] in ("none_named", "O0_O1_taken", "O0_O2_taken") or p_[0].startswith("only_")]
-        spats = [p_ for p_ in spats if p_[0] in ("none_named", "all_named", "S_leaves_taken")]
+        spats = [p_ for p_ in spats if p_[0] in ("none_named", "all_named", "S_leaves_taken", "underscore_species")]
         algos = ("lca", "thl", "superdtl")
     for oid, opat in opats:
         for sid, spat in spats:
             for algo in algos:
                 if algo in ("lca", "thl", "exh"):
-                    syns = [None]
+                    # a plain algorithm is also "compatible with the input" when the file carries leaf syntenies (the tool
+                    # only warns): second variant with the first synteny tuple present in the file
+                    syns = [None, usyn[0]]
                 elif algo in ("base_spfs", "ext_spfs"):
                     syns = osyn if full else osyn[k % 3::3][:4]
                 else:
